@@ -162,9 +162,12 @@ class Opaque:
     """value outside the modelled subset (result of an abstracted statement); any operation on it is opaque"""
     _n = itertools.count()
 
-    def __init__(self, why=""):
+    def __init__(self, why="", buf=None):
         self.why = why
         self.id = next(Opaque._n)
+        # abstract buffer identity (ownership model): views share the buffer of their base, every other
+        # abstracted result is a fresh buffer
+        self.buf = buf if buf is not None else self.id
 
     def __repr__(self):
         return "Opaque(%s)" % self.why
@@ -174,11 +177,13 @@ class PState:
     def __init__(self):
         self.heap = {}
         self.pc = []
+        self.writes = []      # (buffer id, line) of in-place writes to abstracted arrays
 
     def clone(self):
         s = PState()
         s.heap = {k: v.clone() for k, v in self.heap.items()}
         s.pc = list(self.pc)
+        s.writes = list(self.writes)
         return s
 
     def new(self, obj):
@@ -489,6 +494,7 @@ class PyExec:
         return out, env
 
     def exec_stmt(self, st, n, env):
+        self.cur_line = getattr(n, "lineno", None)
         if isinstance(n, ast.Expr):
             if isinstance(n.value, ast.Constant):
                 return [(st, "normal", None, env)]
@@ -568,6 +574,18 @@ class PyExec:
 
     def exec_for(self, st, n, env):
         it = self.eval(st, n.iter, env)
+        if isinstance(it, Opaque) and self.opaque_unknown:
+            # symbolic trip count over abstracted data: ONE generic iteration is executed; buffers written in
+            # it are recorded, which is what the ownership obligations need (values are abstracted anyway)
+            self.abstracted.append("%s line %s: loop over abstracted sequence executed as one generic iteration" % (self.mod.relpath, n.lineno))
+            self.assign(st, n.target, Opaque("loop item", buf=it.buf), env)
+            outs = []
+            for (x, fl, v, e2) in self.exec_block(st, n.body, env):
+                if fl in ("normal", "continue", "break"):
+                    outs.append((x, "normal", None, e2))
+                else:
+                    outs.append((x, fl, v, e2))
+            return self.merge_normals(outs)
         seq = self.iterate(st, it)
         cur = [(st, env)]
         results = []
@@ -680,6 +698,7 @@ class PyExec:
 
     def setitem(self, st, o, idx, v):
         if isinstance(o, Opaque):
+            st.writes.append((o.buf, getattr(self, "cur_line", None)))
             return
         if isinstance(o, dict):
             o[idx] = v
@@ -1065,7 +1084,9 @@ class PyExec:
         raise CheckerError("dot of shapes %s %s" % (A.shape, B.shape))
 
     def getitem(self, st, o, idx):
-        if isinstance(o, Opaque) or isinstance(idx, Opaque) or (isinstance(idx, tuple) and any(isinstance(i, Opaque) for i in idx)):
+        if isinstance(o, Opaque):
+            return Opaque("view of " + o.why, buf=o.buf)       # numpy basic indexing returns a view
+        if isinstance(idx, Opaque) or (isinstance(idx, tuple) and any(isinstance(i, Opaque) for i in idx)):
             return Opaque("subscript of an abstracted value")
         if isinstance(o, dict):
             if is_sym(idx):
@@ -1232,6 +1253,16 @@ class PyExec:
         if isinstance(f, ModuleRef):
             if f.name in self.hooks:
                 return self.hooks[f.name](self, st, args, kwargs)
+            if f.name.split(".")[-1] in ("array", "asarray", "ascontiguousarray") and args and isinstance(args[0], Ref) \
+                    and isinstance(st.heap[args[0].id], PList) and any(isinstance(x, Opaque) for x in st.heap[args[0].id].items):
+                # copying a list of (views of) abstracted arrays: what was stored must not have been overwritten in place
+                for x in st.heap[args[0].id].items:
+                    if isinstance(x, Opaque):
+                        hits = sorted({ln for (b, ln) in st.writes if b == x.buf})
+                        self.oblige("ownership", st, z3.BoolVal(not hits), n,
+                                    label=("array stored in the list (%s) shares its buffer with an array written in place at line(s) %s" % (x.why, hits)) if hits
+                                    else "arrays stored in the list are not overwritten in place")
+                return Opaque("copy of a list of arrays")
             if any(isinstance(a_, Opaque) for a_ in list(args) + list(kwargs.values())):
                 return Opaque("library call on an abstracted value")
             try:
@@ -1274,6 +1305,8 @@ class PyExec:
         if name == "zip":
             return list(zip(*[self.iterate(st, a) for a in args]))
         if name == "enumerate":
+            if isinstance(args[0], Opaque):
+                return Opaque("enumerate(" + args[0].why + ")", buf=args[0].buf)
             return [(z3.IntVal(i), x) for i, x in enumerate(self.iterate(st, args[0]))]
         if name == "float":
             return to_real(num(args[0]))
